@@ -4,7 +4,7 @@ import shutil
 import numpy as np
 
 from gen import layouts as L
-from vmon.core import call, same, hkey, scratch_dir
+from vmon.core import call, same, hkey, scratch_dir, ulp_tol
 from vmon import monitors
 
 ID = 'C02'
@@ -18,12 +18,12 @@ ANCHORS = ['phylib.io.traces:BaseEphysReader._append_op', 'phylib.io.traces:Base
 RULE = ('A program is a sequence of operators from {pos, neg, add, radd, sub, rsub, mul, rmul, truediv, '
         'rtruediv, floordiv, rfloordiv, pow, rpow} x scalars {2, 3, -3, 0.5, 2.0, -1.5 and the neutral elements 0, 1, 0.0, 1.0 (Python int/float); '
         'np.float32(2), np.int16(3), np.float64(1), np.int64(0) on the right} and whole-recording column selections (slice, list, '
-        'permutation). It is built twice with the Python operators, on the reader and on the loaded '
+        'permutation, negative / reversed forms). It is built twice with the Python operators, on the reader and on the loaded '
         'array, then indexed with 4 row items; values+dtype must agree (NaN-aware) or both must raise '
         'the same exception type. EVERY program of depth <= 2 (thorough: <= 3 on int16/array) on the '
         'array backend, random programs of depth 3-6 on flat multi-file / npy / cbin / array readers of '
         'all dtypes, and random derivation trees (parent, children, siblings; every node re-evaluated '
-        'after each new derivation, in shuffled order). non-trivial = distinct programs containing a '
+        'after each new derivation, in shuffled order, with refused out-of-range accesses in between). non-trivial = distinct programs containing a '
         'reflected operator, / or // on an integer dtype, a column selection not in last position; or a '
         'tree with >= 2 siblings.')
 EXHAUSTIVE = {'quick': True, 'thorough': True}
@@ -35,14 +35,16 @@ FLOORS = {'quick': {'evaluations': 50000, 'distinct_nontrivial': 5000, 'monitors
 ASSUMPTIONS = ['NumPy scalars on the left of a reader are excluded (NumPy scalar dispatch decides them)',
                'attributes (dtype, n_channels) of derived readers are not claimed by the statement']
 NSHARDS = 16
-NC = 3
+NC = 5
 
 UNARY = ['pos', 'neg']
 BINARY = ['add', 'radd', 'sub', 'rsub', 'mul', 'rmul', 'truediv', 'rtruediv', 'floordiv', 'rfloordiv',
           'pow', 'rpow']
 PYSCAL = [2, 3, -3, 0.5, 2.0, -1.5, 0, 1, 0.0, 1.0]
 NPSCAL = [('f4', 2), ('i2', 3), ('f8', 1), ('i8', 0)]
-COLS = [('slice', [1, None]), ('list', [2, 0]), ('perm', [1, 2, 0])]
+COLS = [('slice', [1, None]), ('list', [2, 0]), ('perm', [1, 2, 0]),
+        # width-relative forms: they mean something else once an earlier selection has narrowed the recording
+        ('slice', [-2, None]), ('slice', [None, None, -1]), ('list', [-1, 0])]
 
 
 def alphabet():
@@ -236,7 +238,7 @@ def valid_cols(prog):
             if isinstance(a, slice):
                 w2 = len(range(*a.indices(w)))
             else:
-                if max(a) >= w:
+                if max(a) >= w or min(a) < -w:
                     return False
                 w2 = len(a)
             if w2 == 0:
@@ -302,7 +304,7 @@ def _program(case, ctx):
             ctx.violation('index_raised', sub, 'expr(reader)[%r] raised %r' % (rows, rr.exc),
                           dict(feats, exc=rr.exc_name), tb=rr.tb)
             continue
-        d = same(rr.value, exp)
+        d = same(rr.value, exp, rtol=ulp_tol(exp))
         if d:
             ctx.violation('value_mismatch', sub, 'expr(reader)[%r] != expr(array)[%r]: %s' % (rows, rows, d), feats)
     if nontriv:
@@ -340,6 +342,12 @@ def _tree(case, ctx):
         lazy[j], eager[j], progs[j] = l_.value, e.value, prog
         children.setdefault(parent, []).append(j)
         alive.append(j)
+        if j % 3 == 1:
+            # partial failure followed by continued use: a two-axis access whose row part is refused
+            victim = alive[int(rng.integers(0, len(alive)))]
+            bad = call(lambda: lazy[victim][10 ** 6, [0]])
+            if bad.ok:
+                ctx.note('out_of_range_row_accepted')
         # after each derivation, every node so far must still equal its own eager expression
         order = list(alive)
         rng.shuffle(order)
@@ -350,7 +358,7 @@ def _tree(case, ctx):
                 ctx.violation('index_raised', case, 'node %d raised %r after deriving node %d' % (k, rr.exc, j),
                               dict(feats, exc=rr.exc_name), tb=rr.tb)
                 return
-            d = same(rr.value, eager[k][rows])
+            d = same(rr.value, eager[k][rows], rtol=ulp_tol(eager[k]))
             if d:
                 ctx.violation('interference', case,
                               'node %d (program %r) changed after deriving node %d (%r): %s' % (
